@@ -25,7 +25,7 @@ pub fn mon() -> Mon {
 fn plan(cfg: &RunCfg) -> EncPlan {
     let mut p = EncPlan::new(&ALL_FORMS);
     p.addr7 = false;
-    p.len_max = 64;
+    p.len_max = 255;
     p.max_body = 249;
     p.random_per_form = cfg.pick(12_000, 300_000);
     p.param_sweep_reps = cfg.pick(1, 10) as u32;
